@@ -16,6 +16,10 @@ pub const PLAIN_KEYS: &[&str] = &[
     "\u{200e}name", "\u{5e9}\u{5dd}\u{200f}", "\u{202a}C:/Users/x\u{202c}", "\u{2066}a\u{2069}", "\u{61c}", "a\u{200d}b", "a\u{200c}b", "co\u{ad}op", "a\u{2060}b", "\u{202e}txt.exe",
     // every ASCII punctuation mark inside a name (AT&T, 100%, C#, a+b, k=v, x;y, <tag>, {id}, a^b, a|b, what?, a:b, a!)
     "R&D", "100%", "C#", "a+b", "k=v", "x;y", "<tag>", "{id}", "a^b", "a|b", "what?", "a:b", "a!", "a&&b", "a||b", "a==b", "`a`", "a,b;c",
+    // long names that share their length and their first 16 (and 24, 32) bytes: labels, timestamps, hashes
+    "app.kubernetes.io/version", "app.kubernetes.io/part-of", "2024-05-01T10:15:00Z", "2024-05-01T10:15:30Z", "kkkkkkkkkkkkkkkkkkkkkkkkkkkkkkkkkkkkkkkk1", "kkkkkkkkkkkkkkkkkkkkkkkkkkkkkkkkkkkkkkkk2",
+    // numbers of different lengths as names (months, ids): their order in a document is not numeric
+    "2", "10", "11", "100", "9", "007",
     // typographic quotation marks and other characters a "smart" editor or a lenient reader takes for quotes
     "O\u{2019}Brien", "l\u{2019}\u{e9}t\u{e9}", "\u{201c}draft\u{201d}", "\u{2018}x\u{2019}", "a\u{b4}b", "a`b", "5\u{2032}", "\u{ff07}a\u{ff07}", "\u{ff02}a\u{ff02}", "\u{ab}a\u{bb}", "\u{201e}a\u{201c}",
     // look-alikes that only a Unicode normalisation would identify (precomposed / decomposed, compatibility
@@ -60,6 +64,8 @@ pub struct GenCfg {
     pub filter_depth: usize,
     pub funcs: bool,
     pub regex: bool,
+    /// weight of a regular-expression test among the atoms of a logical expression (8 of about 130 by default)
+    pub regex_weight: u32,
     pub ext_funcs: bool,
     /// weight of multi-selector segments
     pub union_weight: u32,
@@ -80,6 +86,7 @@ impl GenCfg {
             filter_depth: 2,
             funcs: true,
             regex: false,
+            regex_weight: 8,
             ext_funcs: false,
             union_weight: 15,
             special_literals: false,
@@ -225,8 +232,10 @@ pub fn gen_value(src: &mut Src, depth_left: usize, cfg: &GenCfg) -> J {
         _ => {
             let n = src.weighted(&[8, 20, 30, 25, 17]).min(cfg.max_width);
             let mut m: Vec<(String, J)> = vec![];
+            // now and then a "list written as an object": every name a number, of different lengths
+            let numeric = src.chance(1, 16);
             for _ in 0..n {
-                let k = gen_key(src, cfg);
+                let k = if numeric { src.pick(&["1", "2", "3", "9", "10", "11", "12", "100", "20", "0"]).to_string() } else { gen_key(src, cfg) };
                 if m.iter().any(|(k2, _)| *k2 == k) {
                     continue;
                 }
@@ -838,7 +847,7 @@ pub fn gen_ext_test<'a>(src: &mut Src, root: &'a J, cur: Option<&Node<'a>>, cfg:
 /// `levels`: how deep the logical structure may still nest
 pub fn gen_expr<'a>(src: &mut Src, root: &'a J, cur: Option<&Node<'a>>, cfg: &GenCfg, fdepth: usize, levels: usize) -> Expr {
     let wl = if levels > 0 { 8 } else { 0 };
-    let wr = if cfg.regex { 8 } else { 0 };
+    let wr = if cfg.regex { cfg.regex_weight } else { 0 };
     let we = if cfg.ext_funcs { 6 } else { 0 };
     match src.weighted(&[35, 28, wl, wl, wl, wl, wr, we]) {
         0 => gen_cmp(src, root, cur, cfg, fdepth),
